@@ -97,7 +97,57 @@ def decOfAscii (s : Text) : Option Dec :=
 def pyDecimal (k : IntClasses) (t : Text) : Option Dec :=
   (decAscii k t).bind decOfAscii
 
+/-- `Decimal(int)` -/
+def decOfInt (i : Int) : Dec :=
+  match i with
+  | .ofNat n => ⟨false, (natDigits n).map (· - 48), .fin 0⟩
+  | .negSucc n => ⟨true, (natDigits (n + 1)).map (· - 48), .fin 0⟩
+
+/-- `format(d, '0{w}f')` (the encoder's rendering of a decimal element): fixed-point notation of the exact
+    value, the sign first, then zero padding to width `w`; specials (NaN, Infinity) are padded with
+    blanks on the left instead.  `w = 0` makes the format string '00f', which Python refuses
+    (`none` = ValueError). -/
+def fmtDecF (w : Nat) (d : Dec) : Option Text :=
+  if w = 0 then none
+  else
+    let sign : Text := if d.neg then [45] else []
+    let chars (ds : List Nat) : Text := ds.map (48 + ·)
+    match d.exp with
+    | .fin e =>
+      let ds := d.digits
+      let body : Text :=
+        if 0 ≤ e then
+          (if ds.all (· == 0) then [48] else chars ds ++ List.replicate e.toNat 48)
+        else
+          let k := (-e).toNat
+          if k < ds.length then chars (ds.take (ds.length - k)) ++ [46] ++ chars (ds.drop (ds.length - k))
+          else [48, 46] ++ List.replicate (k - ds.length) 48 ++ chars ds
+      some (sign ++ List.replicate (w - sign.length - body.length) 48 ++ body)
+    | .inf =>
+      let body := sign ++ [73, 110, 102, 105, 110, 105, 116, 121]
+      some (List.replicate (w - body.length) 32 ++ body)
+    | .nan =>
+      let body := sign ++ [78, 97, 78] ++ chars d.digits
+      some (List.replicate (w - body.length) 32 ++ body)
+    | .snan =>
+      let body := sign ++ [115, 78, 97, 78] ++ chars d.digits
+      some (List.replicate (w - body.length) 32 ++ body)
+
 def strOf (s : String) : Text := s.toList.map Char.toNat
+
+#guard (pyDecimal asciiClasses (strOf "12.5")).bind (fmtDecF 8) == some (strOf "000012.5")
+#guard (pyDecimal asciiClasses (strOf "1E+2")).bind (fmtDecF 8) == some (strOf "00000100")
+#guard (pyDecimal asciiClasses (strOf "-1.5")).bind (fmtDecF 8) == some (strOf "-00001.5")
+#guard (pyDecimal asciiClasses (strOf "0.0000001")).bind (fmtDecF 8) == some (strOf "0.0000001")
+#guard (pyDecimal asciiClasses (strOf "1E-3")).bind (fmtDecF 8) == some (strOf "0000.001")
+#guard (pyDecimal asciiClasses (strOf "0E+3")).bind (fmtDecF 3) == some (strOf "000")
+#guard (pyDecimal asciiClasses (strOf "0.00")).bind (fmtDecF 8) == some (strOf "00000.00")
+#guard (pyDecimal asciiClasses (strOf "-0")).bind (fmtDecF 8) == some (strOf "-0000000")
+#guard (pyDecimal asciiClasses (strOf "NaN")).bind (fmtDecF 8) == some (strOf "     NaN")
+#guard (pyDecimal asciiClasses (strOf "sNaN12")).bind (fmtDecF 8) == some (strOf "  sNaN12")
+#guard (pyDecimal asciiClasses (strOf "-Infinity")).bind (fmtDecF 8) == some (strOf "-Infinity")
+#guard (pyDecimal asciiClasses (strOf "123456789012")).bind (fmtDecF 8) == some (strOf "123456789012")
+#guard (pyDecimal asciiClasses (strOf "12.5")).bind (fmtDecF 0) == none
 
 #guard pyDecimal asciiClasses (strOf "0012.50") == some ⟨false, [1, 2, 5, 0], .fin (-2)⟩
 #guard pyDecimal asciiClasses (strOf " -00.00 ") == some ⟨true, [0], .fin (-2)⟩
